@@ -57,6 +57,30 @@ def build_cli():
         raise Infra("CLI build failed:\n" + p.stdout[-3000:])
 
 
+LIB = os.path.join(os.path.dirname(CLI), "dt-lib")
+
+
+def build_lib():
+    """the library-entry runner (harness/cmd/libtrace): the parameters the command line does not expose"""
+    harness = os.path.join(VERIF, "harness")
+    env = dict(os.environ, GOTOOLCHAIN="local", GOFLAGS="-mod=mod", GOPROXY="off")
+    env.pop("GOSUMDB", None)
+    sum_path = os.path.join(REPO, "go.sum")
+    before = open(sum_path, "rb").read() if os.path.exists(sum_path) else None
+    cmd = [GO, "build", "-tags", "verif", "-o", LIB]
+    if os.path.realpath(REPO) != "/repo":
+        alt = os.path.join(os.path.dirname(CLI), "alt-lib-go.mod")
+        open(alt, "w").write(open(os.path.join(harness, "go.mod")).read().replace("=> /repo", "=> " + os.path.realpath(REPO)))
+        open(alt[:-3] + "sum", "w").write(open(os.path.join(harness, "go.sum")).read())
+        cmd.append("-modfile=" + alt)
+    cmd.append("./cmd/libtrace")
+    p = subprocess.run(cmd, cwd=harness, env=env, stdout=subprocess.PIPE, stderr=subprocess.STDOUT, text=True)
+    if before is not None and open(sum_path, "rb").read() != before:
+        open(sum_path, "wb").write(before)
+    if p.returncode != 0:
+        raise Infra("library runner build failed:\n" + p.stdout[-3000:])
+
+
 def sweep_leftovers():
     p = sh("ip netns list", check=False)
     for line in p.stdout.splitlines():
@@ -187,6 +211,18 @@ class Topo:
             cmd += ["--tcp-method", method]
         if v6:
             cmd.append("--ipv6")
+        lib = self.spec.get("lib")
+        if lib:
+            # through the library entry point: send delay (the CLI fixes 50 ms) and Paris mode
+            cmd[0] = LIB
+            cmd[cmd.index("--proto")], cmd[cmd.index("--max-ttl")], cmd[cmd.index("--timeout")], cmd[cmd.index("--port")] = "-proto", "-max-ttl", "-timeout", "-port"
+            if "--tcp-method" in cmd:
+                cmd[cmd.index("--tcp-method")] = "-tcp-method"
+            if v6:
+                cmd[cmd.index("--ipv6")] = "-ipv6"
+            cmd += ["-delay", str(lib.get("delay_ms", 50))]
+            if lib.get("paris") and proto == "tcp" and method == "syn":
+                cmd.append("-paris")
         cmd.append(self.dest_addr(v6))
         t0 = time.time()
         env = dict(os.environ, GORACE="halt_on_error=1 exitcode=66")
@@ -286,6 +322,8 @@ def gen_spec(rng, idx):
         spec["port_open"] = True
     if rng.random() < 0.3:
         spec["ecn"] = True
+    if rng.random() < 0.25:
+        spec["lib"] = {"delay_ms": rng.choice([0, 0, 1, 7]), "paris": rng.random() < 0.5}
     if rng.random() < 0.2:
         spec["dest_filtered"] = True
         spec["max_ttl_delta"] = rng.choice([1, 2])
@@ -430,6 +468,8 @@ def main():
             raise Infra("needs root for network namespaces")
         sweep_leftovers()
         build_cli()
+        if not RACE:
+            build_lib()
         probe = sh("ip netns add %s_probe && ip netns del %s_probe" % (PFX, PFX), check=False)
         if probe.returncode != 0:
             raise Infra("ip netns unavailable: " + probe.stdout)
@@ -471,6 +511,10 @@ def main():
         if len(specs) > 7:
             specs[7] = {"routers": 1, "port": 443, "port_open": True, "tcp_sack_off": False, "silent": [], "max_ttl_delta": 1, "queries": 3, "e2e": 0,
                         "protos": ["udp", "udp6", "icmp", "icmp6"], "timeout_ms": 200, "concurrent_cli": False, "repeat": 8 if TIER == "quick" else 20}
+        if len(specs) > 8:
+            # the library entry point with the send delay the command line never uses: none at all
+            specs[8] = {"routers": 3, "port": 443, "port_open": True, "tcp_sack_off": False, "silent": [], "max_ttl_delta": 2, "queries": 2, "e2e": 1, "lib": {"delay_ms": 0, "paris": True},
+                        "protos": ["udp", "icmp", "udp6", "icmp6", "tcp:syn", "tcp:sack"], "timeout_ms": 400, "concurrent_cli": False}
         if len(specs) > 2:
             specs[2] = {"routers": 4, "port": 80, "port_open": False, "tcp_sack_off": False, "silent": [1, 3], "max_ttl_delta": -1, "queries": 3, "e2e": 1,
                         "protos": ["tcp:syn", "tcp:prefer_sack", "icmp", "udp"], "timeout_ms": 300, "concurrent_cli": False}
@@ -512,7 +556,7 @@ def main():
     stats = {"prop": PROP, "name": JOBNAME, "evaluations": evals, "distinct_nontrivial": distinct, "hashes": [], "extra_distinct": distinct,
              "labels": {}, "samples": [{"spec": r["spec"], "results": [{k: rr[k] for k in ("proto", "method", "max_ttl", "rc", "hops")} for rr in r["results"]]} for r in results[:3]],
              "rule": "generated topologies (seeded): chains of 1..6 network-namespace routers joined by veth pairs with the kernel's own forwarding/ICMP/TCP, destination with open / closed / SACK-disabled port, a subset of routers with their own ICMP suppressed, max-ttl below/at/above the path length, 1..3 runs and 0..3 e2e probes per invocation, several CLI processes at once; each (topology, protocol/method) CLI invocation of the binary built from the working tree is one evaluation; oracle = the topology itself (router chain then destination, silent routers as empty hops, RTT >= 0, e2e answered iff the destination is within max-ttl, sack fails / prefer_sack falls back when the target cannot do SACK); non-trivial = >= 2 routers and (a silent router, or a closed / SACK-disabled port, or > 1 concurrent run); distinct by (topology spec, protocol)",
-             "assumptions": ["real kernel and real time in the loop (timeouts 300-500 ms); IPv4 for every method, IPv6 for icmp and udp; first TTL is fixed at 1 by the CLI", "a mismatch counts only if it repeats in 3 of 3 attempts on the same topology, or in at least 4 of 8 attempts, or (two short-path topologies whose invocations are repeated 8 / 20 times) in at least 30 % of the invocations (transient packet loss/latency on a shared machine is not a property violation); retried invocations are counted under label_counts"], "exhaustive": False, "excluded_known": 0, "known_findings_seen": [], "violations": len(failing)}
+             "assumptions": ["real kernel and real time in the loop (timeouts 300-500 ms); IPv4 for every method, IPv6 for icmp and udp; first TTL 1 throughout; a quarter of the topologies (and one fixed one) are traced through the library entry point (harness/cmd/libtrace) with a send delay of 0, 1 or 7 ms and, for tcp syn, Paris mode, which the command line does not expose", "a mismatch counts only if it repeats in 3 of 3 attempts on the same topology, or in at least 4 of 8 attempts, or (two short-path topologies whose invocations are repeated 8 / 20 times) in at least 30 % of the invocations (transient packet loss/latency on a shared machine is not a property violation); retried invocations are counted under label_counts"], "exhaustive": False, "excluded_known": 0, "known_findings_seen": [], "violations": len(failing)}
     for r in results:
         for rr in r["results"]:
             k = "proto:%s/%s" % (rr["proto"], rr["method"])
